@@ -2,6 +2,6 @@
 # run_all.sh [tier] [ids...]: run checks two at a time on the current /repo, print one summary line each
 cd /verif; TIER=${1:-quick}; shift; IDS="$@"; [ -z "$IDS" ] && IDS="C01 C02 C03 C04 C06 C08 C09 C11 C12 C13 C14 C16 C18"
 mkdir -p /tmp/runs
-run1() { t0=$(date +%s); timeout 14000 ./check $1 --tier $TIER > /tmp/runs/all-$1-$TIER.log 2>&1; rc=$?; echo "$1 rc=$rc wall=$(( $(date +%s)-t0 ))s $(tail -1 /tmp/runs/all-$1-$TIER.log | cut -c1-150)"; }
+run1() { t0=$(date +%s); timeout 14000 ./check $1 --tier $TIER ${CHECK_ARGS:-} > /tmp/runs/all-$1-$TIER.log 2>&1; rc=$?; echo "$1 rc=$rc wall=$(( $(date +%s)-t0 ))s $(tail -1 /tmp/runs/all-$1-$TIER.log | cut -c1-150)"; }
 export -f run1; export TIER
 echo $IDS | tr ' ' '\n' | xargs -P 2 -I{} bash -c 'run1 {}'
